@@ -934,6 +934,44 @@ theorem loop_skip_end (q : String) (rest : List Ev) (sh : List (Sheet String × 
 
 end steps
 
+theorem inertX_nil : InertX [] := fun _ h => by cases h
+theorem inertO_nil : InertO [] := fun _ h => by cases h
+theorem gaps_ok_empty : ({} : Gaps).ok := ⟨inertX_nil, inertX_nil, inertX_nil, inertX_nil, inertX_nil⟩
+theorem gaps_okO_empty : ({} : Gaps).okO := ⟨inertO_nil, inertO_nil, inertO_nil, inertO_nil, inertO_nil⟩
+
+/-- inert events (see `InertX`) leave the state of the current reader unchanged -/
+theorem loop_inert (rels : List (String × String)) : ∀ (evs : List Ev), InertX evs → ∀ (rest : List Ev) (st : XlsxSt),
+    st.cur = none → st.skip = none → xlsxLoopWith cfgNow rels (evs ++ rest) st = xlsxLoopWith cfgNow rels rest st := by
+  intro evs
+  induction evs with
+  | nil => intros; rfl
+  | cons e es ih =>
+    intro hi rest st hc hk
+    have he := hi e (by simp)
+    have hes : InertX es := fun x hx => hi x (by simp [hx])
+    simp only [List.cons_append]
+    cases e with
+    | start n a =>
+      simp only [xlsxInterpreted, List.mem_cons, List.not_mem_nil, or_false, not_or] at he
+      obtain ⟨h0, h1, h2, h3⟩ := he
+      rw [loop_start_skip cfgNow rels n a _ st hc hk h0 h1 (by simp [cfgNow, h2]) h3]
+      exact ih hes rest st hc hk
+    | end_ n =>
+      rw [loop_end_skip cfgNow rels n _ st hc hk he]
+      exact ih hes rest st hc hk
+    | text t =>
+      obtain ⟨sh, nm, d, cur, sk⟩ := st
+      simp only at hc hk; subst hc; subst hk
+      rw [xlsxLoopWith] <;> first | exact ih hes rest _ rfl rfl | simp
+    | other =>
+      obtain ⟨sh, nm, d, cur, sk⟩ := st
+      simp only at hc hk; subst hc; subst hk
+      rw [xlsxLoopWith] <;> first | exact ih hes rest _ rfl rfl | simp
+    | cdata t =>
+      obtain ⟨sh, nm, d, cur, sk⟩ := st
+      simp only at hc hk; subst hc; subst hk
+      rw [xlsxLoopWith] <;> first | exact ih hes rest _ rfl rfl | simp
+
 theorem loop_sheets (cfg : XlsxCfg) (rels : List (String × String)) (q : String → String) (hq : QOk q)
     (ridKey : String) (hk : ridKeyOk ridKey) :
     ∀ (sheets : List XSheet), (∀ s ∈ sheets, s.ok rels) → ∀ (rest : List Ev) (sh : List (Sheet String × List Char))
@@ -1043,6 +1081,29 @@ theorem ods_style (st : String × Option Bool) (rest : List Ev) (sh : List (Shee
       simp only [this, hf, if_false, if_true, Option.getD_some, styleVis]
       rw [ods_top_end, ods_top_end]
 end
+
+/-- inert events (see `InertO`) leave the top-level state of `parse_content` unchanged -/
+theorem ods_inert : ∀ (evs : List Ev), InertO evs → ∀ (rest : List Ev) (sh : List (Sheet String)) (nm : List (String × String))
+    (sty : List (String × SheetVisible)) (sn : Option String),
+    odsLoop (evs ++ rest) ⟨sh, nm, sty, sn, .top⟩ = odsLoop rest ⟨sh, nm, sty, sn, .top⟩ := by
+  intro evs
+  induction evs with
+  | nil => intros; rfl
+  | cons e es ih =>
+    intro hi rest sh nm sty sn
+    have he := hi e (by simp)
+    have hes : InertO es := fun x hx => hi x (by simp [hx])
+    simp only [List.cons_append]
+    cases e with
+    | start n a =>
+      simp only [odsInterpreted, List.mem_cons, List.not_mem_nil, or_false, not_or] at he
+      obtain ⟨h1, h2, h3, h4⟩ := he
+      rw [ods_top_start_skip n a _ sh nm sty sn h1 h2 h3 h4]
+      exact ih hes rest sh nm sty sn
+    | end_ n => rw [ods_top_end]; exact ih hes rest sh nm sty sn
+    | text t => rw [odsLoop] <;> first | exact ih hes rest sh nm sty sn | simp
+    | other => rw [odsLoop] <;> first | exact ih hes rest sh nm sty sn | simp
+    | cdata t => rw [odsLoop] <;> first | exact ih hes rest sh nm sty sn | simp
 
 theorem ods_styles : ∀ (styles : List (String × Option Bool)) (rest : List Ev) (sh : List (Sheet String)) (nm : List (String × String))
     (sty : List (String × SheetVisible)) (sn : Option String),
